@@ -37,6 +37,10 @@ def run(ctx):
         ctx.guard("true-decisions" + tag, true_decisions, ctx, crate, crs, tag)
         ctx.guard("decide-installed-parents" + tag, decide_rule, ctx, crate, crs, tag)
         ctx.guard("undo-total" + tag, undo_total, ctx, crate, crs, tag)
+        # learnt clauses keep every lower-level literal they were derived from (shared with C03): a clause learnt while a soft
+        # requirement or an abandoned choice was installed must stay conditional on it
+        import c03
+        ctx.guard("antecedents" + tag, c03.antecedents, ctx, crate, crs, tag)
 
 
 def positive_literals(ctx, crate, crs, tag):
@@ -276,6 +280,26 @@ def undo_total(ctx, crate, crs, tag):
             if d["k"] == "call" and d["t"]["f"]["name"] == "undecided":
                 ok = True
         ctx.ob(R, b.key, "reset-writes-undecided", ok, b.loc(), "reset stores the undecided marker")
+    # who may shrink the trail: only undo_last's pop (which resets the map entry of the popped decision); any other removal from
+    # `stack` leaves decisions "installed" in the map that decide() and chosen_solvables() read
+    TRACKER_ADT = "resolvo::solver::decision_tracker::DecisionTracker"
+    n_mut = 0
+    for bb_ in crate.bodies:
+        if bb_.crate.is_test:
+            continue
+        for i, t in bb_.calls():
+            f = t.get("f")
+            if not f or not t["args"] or f["name"] not in ("pop", "truncate", "clear", "drain", "remove", "swap_remove", "retain",
+                                                         "split_off", "set_len", "pop_if", "dedup", "resize", "take"):
+                continue
+            d, _ = q.origin_thru(bb_, t["args"][0])
+            if not q.mentions_field(d, TRACKER_ADT, "stack"):
+                continue
+            n_mut += 1
+            fn = q.enclosing_fn(crate, bb_)
+            ctx.ob(R, fn, "trail-shrinks:%s" % f["name"], fn == DT + "undo_last" and f["name"] == "pop", where_call(bb_, i),
+                   "decisions leave the trail only through undo_last's pop, which also resets their map entry")
+    ctx.floor(R, "removals from the trail", n_mut, 1)
     # clear() resets the whole tracker (map, stack, propagate index) via Default
     b = body_by_key(crate, DT + "clear")
     if b is not None:
